@@ -3,6 +3,9 @@ import Qv.Proofs.ProblemsASC
 import Qv.Proofs.ProblemsVC
 import Qv.Proofs.ProblemsBILP
 import Qv.Proofs.ProblemsRest
+import Qv.Proofs.ProblemsGP
+import Qv.Proofs.ProblemsJS
+import Qv.Proofs.ProblemsSC
 /-!
 # C10 — Problem classes encode their combinatorial problem faithfully
 
@@ -15,9 +18,9 @@ Vocabulary: `dotFrom x c 0 = Σ_i c_i x_i`; `sumTo x n = Σ_{i<n} x_i`; `enumSol
 an endpoint with `x = 1`; `sqRes x S b = Σ_j (b_j - S_j·x)^2`, `Feasible x S b` is `S x = b`, `sumAbs c = Σ|c_i|`,
 `IntList` integer entries; `chainSum p z qs = Σ_{q∈qs} J_q z_q z_{q+1}` with `J_q = -strength_q`.
 
-Proved at full strength here: T10.1 and T10.3 for NumberPartitioning, AlternatingSectorsChain, VertexCover, BILP
-(T10.2 in the forms stated).  SetCover, JobSequencing, GraphPartitioning: model + correspondence + enumeration oracle
-only (no theorem in this file claims them).
+Proved at full strength here: T10.1 for all seven classes; T10.3 for NumberPartitioning, AlternatingSectorsChain,
+VertexCover, BILP (T10.2 in the forms stated).  SetCover, JobSequencing, GraphPartitioning: ground-state sentences by the
+enumeration oracle only (no theorem in this file claims them).
 -/
 namespace Qv.C10
 open Qv Qv.Prob
@@ -202,8 +205,14 @@ theorem bilp_ground_states (p : BILP) (A : Option Rat) (B : Rat) (hB : 0 < B)
   have : B * dotFrom x p.c 0 ≤ B * dotFrom y p.c 0 := by linarith
   exact le_of_mul_le_mul_left this hB
 
-/-- **T10.2 (partial: as the code is).** `is_solution_valid` compares with `np.allclose`: on integers the test of one
-row is exact as long as `|b_j| ≤ 99999` … -/
+/-- **T10.2** integer dtypes (`exact = true`, the code since upstream 131e8ef): `is_solution_valid` on a converted
+solution holds iff every row satisfies `S_j · x = b_j` exactly. -/
+theorem bilp_valid_exact_int (p : BILP) (xs : List Rat) :
+    p.validConv xs true = true ↔ ∀ rb ∈ p.S.zip p.b, dot rb.1 xs = rb.2 := by
+  simp [BILP.validConv, List.all_eq_true]
+
+/-- **T10.2 (partial: non-integer dtypes keep `np.allclose`).** on integers the tolerant test of one row is exact as
+long as `|b_j| ≤ 99999` … -/
 theorem bilp_valid_entry_partial (a b : Rat) (ha : ∃ z : Int, a = z) (hb : ∃ z : Int, b = z)
     (hsmall : absR b ≤ 99999) : closeTo a b = true ↔ a = b := by
   unfold closeTo
@@ -228,8 +237,9 @@ theorem bilp_valid_entry_partial (a b : Rat) (ha : ∃ z : Int, a = z) (hb : ∃
     have := absR_nonneg b
     nlinarith
 
-/-- … and beyond that bound it accepts an infeasible point (`S x = 100001`, `b = 100000`): the tolerance defect of
-`BILP.is_solution_valid`, reproduced by the model. -/
+/-- … and beyond that bound the tolerant test accepts an infeasible point (`S x = 100001`, `b = 100000`).  Before
+upstream 131e8ef this path was taken for integer data too (the defect `C10:BILP-allclose-accepts-infeasible`); it now
+only applies to float / object dtypes. -/
 theorem bilp_valid_tolerance_counterexample :
     BILP.validConv ⟨[1], [[100001]], [100000], 1⟩ [1] = true ∧ dot [100001] [1] ≠ (100000 : Rat) := by
   decide +kernel
@@ -246,35 +256,44 @@ example : IntList [1, 0, -2] := by
 
 /-! ## SetCover, JobSequencing, GraphPartitioning — partial
 
-For these three classes the ground-state sentences (T10.3) and the closed penalty forms are **not** proved; they are
-checked by the enumeration oracle of `harness/c10.py` (a test).  What is proved: the returned matrix is, as a function
-of the boolean assignment, the sum of the statements `Q[k] += v` the method executes (nothing is lost by key squashing,
-merging or zero removal), and for GraphPartitioning the cut part of the energy. -/
+For these three classes the ground-state sentences (T10.3) are **not** proved; they are checked by the enumeration
+oracle of `harness/c10.py` (a test).  Proved for every instance: the closed energy forms (T10.1) of all three. -/
 
-/-- **T10.1 (partial), SetCover.** `⟦to_qubo(A, B)⟧x = Σ` of the executed statements `SC.ops` -/
-theorem sc_matrix_partial (p : SC) (A B : Rat) (Q : Poly) (h : p.toQubo A B = .ok Q) (x : Var → Rat) (hx : IsBool x) :
-    eval x Q = eval x (p.ops A B) := by
+/-- **T10.1, SetCover.** `⟦to_qubo(A, B)⟧x = B Σ_i w_i x_i + A Σ_α penalty_α(x)` on boolean points, where for the element
+`α` with index `ia` in `U` and `X_α = Σ_{i : α ∈ V_i} x_i` the penalty (`SC.elemPenalty`) is
+`(1 + Σ_{m ≤ log M} 2^m x_{α,m} - X_α)^2` with `log_trick` and
+`(1 - Σ_{m=1..M} x_{α,m})^2 + (Σ_m m x_{α,m} - X_α)^2` without — Lucas' `H_A + H_B` with the counters as written. -/
+theorem sc_energy (p : SC) (A B : Rat) (Q : Poly) (h : p.toQubo A B = .ok Q) (x : Var → Rat) (hx : IsBool x) :
+    eval x Q = B * dotFrom x p.weights 0 + A * sumIdx (p.elemPenalty x) p.U 0 := by
   have := eval_build (sqOK_bool (κ := .qubom) rfl hx) h
-  simpa using this
+  rw [this, sc_ops_eval p A B hx]; simp
 
-/-- **T10.1 (partial), JobSequencing.** `⟦to_qubo(A, B)⟧x = Σ` of the executed statements `JS.ops` (with `A = None`
-resolved to `B · max length`) -/
-theorem js_matrix_partial (p : JS) (A : Option Rat) (B : Rat) (Q : Poly) (h : p.toQubo A B = .ok Q) (x : Var → Rat)
-    (hx : IsBool x) : eval x Q = eval x (p.ops (p.weightA A B) B) :=
-  js_build_eval p A B Q h x hx
+/-- **T10.1, JobSequencing.** `⟦to_qubo(A, B)⟧x = A Σ_j (1 - Σ_w x_{j,w})^2 + B Σ_j L_j x_{j,0} +
+A Σ_{w≥1} (Y_w + Σ_j L_j (x_{j,w} - x_{j,0}))^2` — Lucas' `H_A + H_B` with the slack registers `Y_w = Σ_n c_n y_{n,w}`
+(`c_n = 2^n` with `log_trick`, else `n + 1`) as written; `A = None` means `B · max length` (`JS.weightA`). -/
+theorem js_energy (p : JS) (A : Option Rat) (B : Rat) (Q : Poly) (h : p.toQubo A B = .ok Q) (x : Var → Rat)
+    (hx : IsBool x) :
+    eval x Q =
+      p.weightA A B * sumMap p.jobs (fun jl => (1 - p.S x jl.1) ^ 2) +
+      B * sumMap p.jobs (fun jl => jl.2 * x (p.x jl.1 0)) +
+      p.weightA A B * sumMap ((List.range p.m).drop 1) (fun w => (p.Y x w + p.D x w) ^ 2) := by
+  rw [js_build_eval p A B Q h x hx, js_ops_eval]
 
-/-- **T10.1 (partial), GraphPartitioning.** `⟦to_quso(A, B)⟧z = ⟦penalty⟧z + B Σ_e w_e / 2 - Σ_e (w_e B / 2) z_u z_v`
-where `penalty` are the terms of `PCSO().add_constraint_eq_zero({(i,): 1 …}, lam=A)`; i.e. the cut part is
-`B Σ_e w_e (1 - z_u z_v) / 2`. -/
-theorem gp_cut_partial (p : GP) (A : Option Rat) (B : Rat) (L : Poly) (h : p.toQuso A B = .ok L) (z : Var → Rat)
+/-- **T10.1, GraphPartitioning.** `⟦to_quso(A, B)⟧z = A (Σ_{i<N} z_i)^2 + B Σ_e w_e / 2 - Σ_e (w_e B / 2) z_u z_v`
+`= A (Σ z_i)^2 + B Σ_e w_e (1 - z_u z_v)/2` for every instance, every `A` (`None` = `min(2·degree, N)·B/8`,
+`GP.weightA`) and `B`: the balance penalty `PCSO().add_constraint_eq_zero({(i,): 1 …}, lam=A)` always takes the squaring
+branch (the shortcut and the one-sided branches are excluded by the values at the all-zeros and all-ones points). -/
+theorem gp_energy (p : GP) (A : Option Rat) (B : Rat) (L : Poly) (h : p.toQuso A B = .ok L) (z : Var → Rat)
     (hz : IsSpin z) :
-    ∃ pen, eval z L = eval z pen + B * sumL (p.edges.map Prod.snd) / 2 - cutSum p.order B z p.edges := by
-  simp only [GP.toQuso, bind_ok_iff] at h
-  obtain ⟨pen, _, L0, h0, L1, h1, h2⟩ := h
-  have hs : SqOK (squash .qusom) z := sqOK_spin rfl hz
-  refine ⟨pen, ?_⟩
-  rw [gp_cutLoop_eval hz p.edges L1 L h2, eval_addTerm hs h1, eval_iaddD hs h0]
-  simp only [eval_nil, mon_nil]; ring
+    eval z L = p.weightA A B * (sumTo z p.numVars) ^ 2 + B * sumL (p.edges.map Prod.snd) / 2 -
+      cutSum p.order B z p.edges :=
+  gp_toQuso_eval p A B L h z hz
+
+/-- the balance penalty alone: `⟦PCSO().add_constraint_eq_zero({(i,): 1 for i < N}, lam)⟧z = lam (Σ_{i<N} z_i)^2` -/
+theorem gp_balance_penalty (N : Nat) (lam : Rat) (pen : Poly)
+    (h : pcsoEqZeroTerms ((List.range N).map (fun i => ([i], (1 : Rat)))) lam = .ok pen)
+    (z : Var → Rat) (hz : IsSpin z) : eval z pen = lam * (sumTo z N) ^ 2 :=
+  pcso_eqZero_linear N lam pen h z hz
 
 /-- **T10.2** `is_solution_valid` on converted solutions: GraphPartitioning compares the sizes of the two parts -/
 theorem gp_valid_iff (c : List Var × List Var) : GP.validConv c = true ↔ c.1.length = c.2.length := by
